@@ -118,7 +118,8 @@ func genChain(r *RNG) []manglerSpecGo {
 }
 
 var c10LeafTypes = append(append([]reflect.Type{}, envLeafTypes...),
-	reflect.TypeOf(time.Time{}), reflect.TypeOf(map[string]struct{}(nil)), reflect.TypeOf([]time.Duration(nil)), reflect.TypeOf(map[string]time.Duration(nil)), reflect.TypeOf((*time.Duration)(nil)))
+	reflect.TypeOf(time.Time{}), reflect.TypeOf(map[string]struct{}(nil)), reflect.TypeOf([]time.Duration(nil)), reflect.TypeOf(map[string]time.Duration(nil)), reflect.TypeOf((*time.Duration)(nil)),
+	reflect.TypeOf((**time.Duration)(nil)), reflect.TypeOf((*[]time.Duration)(nil)), reflect.TypeOf((*map[string]time.Duration)(nil)))
 
 // fillValue sets a translated field (pointer / slice / map typed) to a random non-nil value and returns
 // the text whose scanner tokens the model may need (for *string fills of a string-cast chain)
@@ -483,6 +484,34 @@ func checkC10(c *Ctx) {
 							res.Add(Finding{Kind: "violation", What: fmt.Sprintf("an empty translated value reverses to a value with field %s set", out.Type().Field(k).Name), Case: cs2, Observed: impl})
 							break
 						}
+					}
+				}
+			}
+			if round == 1 && impl != "err" && impl != "panic" {
+				// oracle: a filled translated field whose type the chain left alone comes back as the value of
+				// the original leaf it stands for (located by the flatten mangler's field path, else by name)
+				for k := 0; k < val.NumField(); k++ {
+					fv := val.Field(k)
+					if (fv.Kind() == reflect.Ptr || fv.Kind() == reflect.Slice || fv.Kind() == reflect.Map) && fv.IsNil() {
+						continue
+					}
+					path := TT.Field(k).Tag.Get("dialsfieldpath")
+					if path == "" {
+						path = TT.Field(k).Name
+					}
+					names := strings.Split(path, ",")
+					names[len(names)-1] = strings.TrimSuffix(names[len(names)-1], "_alias9wr876rw3")
+					leaf := leafOf(out, names)
+					if !leaf.IsValid() {
+						res.Add(Finding{Kind: "violation", What: fmt.Sprintf("translated field %s was filled, but the original leaf %s is unset after ReverseTranslate", TT.Field(k).Name, path), Case: cs2, Observed: impl})
+						break
+					}
+					if leaf.Type() != fv.Type() {
+						continue // a type-changing mangler (string cast, set->slice, substitution, text) converted it: model-checked
+					}
+					if !reflect.DeepEqual(leaf.Interface(), fv.Interface()) {
+						res.Add(Finding{Kind: "violation", What: fmt.Sprintf("translated field %s was filled, but the original leaf %s holds a different value after ReverseTranslate", TT.Field(k).Name, path), Case: cs2, Expected: tfValC10(fv), Observed: tfValC10(leaf)})
+						break
 					}
 				}
 			}
